@@ -1,4 +1,5 @@
 import AnySyncModel.OCache.Inductive
+import AnySyncModel.OCache.Cancel
 import AnySyncModel.OCache.Check
 /-!
 C16 — object cache: at most one live instance per id under any interleaving.
@@ -98,6 +99,26 @@ theorem no_panic : C16_no_panic_full :=
 (environment verdicts — load finish, close return, TryClose answer — being always available) -/
 theorem deadlock_free : C16_deadlock_free_full :=
   fun _ hr => deadlock_free_of_inv (inv_reachable hr)
+
+/-! ### callers that give up while waiting (context expiry) -/
+
+/-- a waiting caller whose context expires returns without touching the entry: the step preserves `Inv` -/
+theorem ctx_cancel_preserves_inv {s s' : State} {t : Tid} {e : Err} (h : Inv s)
+    (hc : ctxCancel s t e = some s') : Inv s' := ctxCancel_preserves_inv h hc
+
+/-- all parts of C16 for schedules that also contain context expiries of waiting Get / Pick / Remove /
+RemoveSame callers (the internal deadline of cache `Close()` is not included) -/
+theorem c16_with_cancellation {s : State} (h : ReachableC s) :
+    OneLive s ∧ HandedOutLoaded s ∧ NoDoubleClose s ∧ NoneOpenAfterClose s ∧ RemovedNotReturned s ∧
+    NoPanic s ∧ DeadlockFree s :=
+  let i := inv_reachableC h
+  ⟨one_live_instance_of_inv i, handed_out_are_loaded_of_inv i, no_double_close_of_inv i,
+   none_open_after_Close_of_inv i, removed_not_returned_later_of_inv i, no_panic_of_inv i, deadlock_free_of_inv i⟩
+
+/-- the step is enabled for a blocked remover: thread 1 (`Remove`) waits for the load of thread 0 -/
+example : ((run init [.spawn (.get 0), .spawn (.remove 0), .step 0 none, .step 1 none]).bind
+    fun s => (ctxCancel s 1 .closed).map fun s' => (s'.thr 1).pc) =
+    some (.done (.okErr false (some .closed))) := by decide
 
 /-! ### non-vacuity: a concrete schedule (Get loads id 0 while Remove and a second Get race) -/
 
